@@ -431,3 +431,29 @@ Definition run_spec (g : dag) (tip : option revid) (tags : list (nat * revid)) (
 (* kind "graph": the environment functions used by ancestor: and mainline: *)
 Definition run_graph (g : dag) (a b : revid) (tip : option revid) : obs :=
   OL [orev (find_unique_lca g a b); orev (find_lefthand_merger g a tip)].
+
+(* kind "seq": questions asked of ONE locked Branch object, interleaved with tip
+   changes (set_last_revision_info / pull --overwrite): every answer is the answer
+   for the tip of that moment -- the caches of the Branch object must not show *)
+Inductive step :=
+| QSpec (s : spec)             (* in_history and as_revision_id *)
+| QDotted (r : revid)          (* revision_id_to_dotted_revno *)
+| QId (d : revno)              (* dotted_revno_to_revision_id *)
+| QRevno (r : revid)           (* revision_id_to_revno *)
+| SetTip (t : option revid).   (* the branch tip moves *)
+
+Fixpoint run_steps (g : dag) (tags : list (nat * revid)) (tip : option revid) (steps : list step) : list obs :=
+  match steps with
+  | [] => []
+  | st :: rest =>
+      let b := mkBr g tip tags in
+      match st with
+      | QSpec s => OL [ores oinfo (in_history b s); ores orev (as_revision_id b s)] :: run_steps g tags tip rest
+      | QDotted r => ores orevno (revision_id_to_dotted_revno b (Some r)) :: run_steps g tags tip rest
+      | QId d => ores orev (dotted_revno_to_revision_id b d) :: run_steps g tags tip rest
+      | QRevno r => ores onat (revision_id_to_revno b (Some r)) :: run_steps g tags tip rest
+      | SetTip t => OT "tip" :: run_steps g tags t rest
+      end
+  end.
+Definition run_seq (g : dag) (tip : option revid) (tags : list (nat * revid)) (steps : list step) : obs :=
+  OL (run_steps g tags tip steps).
